@@ -126,6 +126,15 @@ class Cx:
         had_var = any(n.startswith('*') and not n.startswith('**') for n in sigs.get(f.qualname.split('@')[0], []))
         # a documented parameter that is still there keeps its position (a renamed one is a different matter: positions are unchanged)
         ok = all(cur.index(q) == i for i, q in enumerate(pinned) if q in cur) and (not had_var or len(cur) == len(pinned))
+        # ... and stays positional: made keyword-only (behind a new *args) it no longer receives the argument of a positional call
+        ok = ok and not any(q in f.kwonly for q in pinned)
+        gone = [q for q in pinned if q not in cur and q not in f.kwonly and not q.startswith('*')]
+        if ok and gone and not f.name.startswith('_') and f.node.args.kwarg is None:
+            # ... and its name: a documented parameter of a public function can be passed by keyword
+            self.violation('R-API', f.qualname, 'documented-parameter-names-kept',
+                           f"{f.qualname} no longer has the documented parameter(s) {gone} (it takes {cur}): a call that passes "
+                           f"{gone[0]!r} by keyword - env.get_agent(id=...) - now raises TypeError instead of doing what is documented",
+                           where=self.where(f))
         if not ok:
             self.violation('R-API', f.qualname, 'documented-positional-parameters-kept',
                            f"{f.qualname} takes the positional parameters {cur}; the documented ones are {pinned}"
